@@ -156,11 +156,42 @@ def make_entry(y, configs, pid, tier="quick", text=None, hw=False, rng=None, cap
     st = mapping.get("spacetime") or {}
     e = {"id": pid, "code": code, "einsums": einsums, "inputs": inputs, "outs": outs, "configs": configs,
          "sups": sups, "tvars": tvars, "spacetime": bool(st), "stamped": bool(st) and bool((extra or {}).get("stamped", True)),
-         "metrics": "metrics[\"time\"]" in text, "usesHalo": "_halo=" in text, "usesNonUniform": "splitNonUniform(" in text}
+         "metrics": "metrics[\"time\"]" in text, "arch": arch_facts(d) if hw else {}, "usesHalo": "_halo=" in text, "usesNonUniform": "splitNonUniform(" in text}
     meta = {"id": pid, "yaml": y, "text": text, "family": family, "hw": hw, "n_inputs": sum(len(s) for s in sups),
             "variants": (2 if e["usesHalo"] else 1) * (2 if e["usesNonUniform"] else 1)}
     meta.update(extra or {})
     return e, meta
+
+
+def arch_facts(d):
+    """Independent reader of the architecture/bindings sections: Einsum -> component -> kind, rate, instance count."""
+    arch = d.get("architecture") or {}
+    binds = d.get("bindings") or {}
+    out = {}
+    for einsum, bl in binds.items():
+        cfg = next((b["config"] for b in bl if "config" in b), None)
+        if cfg is None or cfg not in arch:
+            continue
+        root = arch[cfg][0]
+        freq = (root.get("attributes") or {}).get("clock_frequency")
+        comps = {}
+        todo = [root]
+        while todo:
+            lvl = todo.pop()
+            m = re.fullmatch(r"\s*\w+\s*\[\s*0\s*\.\.\s*(\d+)\s*\]\s*", str(lvl["name"]))
+            inst = int(m.group(1)) + 1 if m else 1
+            for c in lvl.get("local") or []:
+                cls = str(c["class"]).lower()
+                attrs = c.get("attributes") or {}
+                if cls in ("dram", "buffet", "cache"):
+                    kind, rate = "memory", attrs.get("bandwidth")
+                else:
+                    kind, rate = {"compute": "compute", "intersector": "intersector", "merger": "merger", "sequencer": "sequencer"}.get(cls, cls), freq
+                if isinstance(rate, int) and rate < 2 ** 20:
+                    comps[c["name"]] = {"kind": kind, "rate": rate, "inst": inst}
+            todo.extend(lvl.get("subtree") or [])
+        out[einsum] = comps
+    return out
 
 
 class NotPython(Exception):
